@@ -3,6 +3,7 @@
 restored on every path — and the operation-sequence exploration on SQLite (checks/C23_explore.py) as the bounded complement."""
 import contracts.transaction_ctx  # noqa: F401
 import contracts.transaction_root  # noqa: F401
+import contracts.transaction_nested  # noqa: F401
 from pyvc.contract import FUNCS
 from vlib.proof import run_proofs
 from checks import C23_explore
@@ -24,5 +25,6 @@ def run(run, tier, seed, args):
     run.coverage.update(proof_cov)
     run.assumptions += [
         "abstract contracts for commit / rollback / close / _transaction_is_active / _transaction_is_closed / _rollback_can_be_called of the concrete transaction classes: they may change the transaction's own state and may raise; they do not touch the context-manager links",
-        "under proof: TransactionalContext.__enter__, __exit__ (26 paths), _trans_ctx_check; Connection.begin/begin_nested/commit/rollback and Root/NestedTransaction are in the bounded complement",
+        "under proof: TransactionalContext.__enter__, __exit__ (26 paths), _trans_ctx_check; RootTransaction._close_impl/_do_commit/_deactivate_from_connection; NestedTransaction._deactivate_from_connection/_cancel (recursive, over a ghost chain of savepoint handles)/_close_impl/_do_commit. Connection.begin/begin_nested/commit/rollback, NestedTransaction.__init__ and the savepoint SQL are in the bounded complement",
+        "NestedTransaction._cancel: the ghost parameter `chain` is the list of handles linked by _previous_nested (acyclic, one connection): assumed well-formed at the call from RootTransaction (established by __init__, not under proof); the recursion is checked against its own contract (partial correctness)",
     ]
